@@ -227,7 +227,7 @@ pub fn case_from_expr(e: &Expr, env: &dyn Env, nontrivial: bool, classes: Vec<&s
 
 /// Load corpus cases `corpus/<ID>/*.json` (each file: one case or a list).
 pub fn load_corpus<T: for<'de> Deserialize<'de>>(prop: &str) -> Vec<(String, T)> {
-    let dir = format!("{}/corpus/{}", crate::runner::VERIF, prop);
+    let dir = format!("{}/corpus/{}", crate::runner::verif_root(), prop);
     let mut out = Vec::new();
     let mut names: Vec<_> = match std::fs::read_dir(&dir) {
         Ok(rd) => rd.filter_map(|e| e.ok()).map(|e| e.path()).filter(|p| p.extension().map(|x| x == "json").unwrap_or(false)).collect(),
